@@ -543,6 +543,13 @@ static void DisasmIterator(OneChunk const* pChunk, Boolean IsData, void* pUser) 
         }
 
         Disassemble(Address, &Info, IsData, DataSize);
+
+        /* nothing could be retrieved here (the area extends beyond the loaded
+           image): no progress possible, leave the rest of the area alone */
+
+        if (!Info.CodeLen) {
+            break;
+        }
         if (Info.pRemark) {
             PrTabs(pData->pDestFile, pData->MaxLabelLen, 0);
             fprintf(pData->pDestFile, "; %s\n", Info.pRemark);
